@@ -13,7 +13,7 @@
    Named hypotheses that stay visible in props/C19.v: the specification of sqrt_ratio
    ([sqrt_ratio_spec]: what the RFC calls sqrt_ratio), the exceptional-case fact that g(B/(ZA)) is
    recognised as a square (RFC 9380 §6.6.2 condition 4 on Z), the Fermat facts on the exponents. *)
-From Coq Require Import ZArith Field Ring Nsatz Bool List Lia.
+From Coq Require Import ZArith NArith Field Ring Nsatz Bool List Lia.
 Require Import V.base.Fld V.gen.Mappers.
 
 Section FieldFacts.
@@ -182,6 +182,29 @@ Section FieldFacts.
     Qed.
   End SSWU.
 
+  (* sswu with the p = 3 (mod 4) square-root program plugged in, as k256 / p256 / BLS12-381 G1 do *)
+  Section SSWU3Mod4.
+    Variables (A B Z : F) (mulByA mulByB : F -> F) (sgn0 : F -> bool) (c1 : N) (c2 : F).
+    Hypothesis mulByA_spec : forall x, mulByA x = A * x.
+    Hypothesis mulByB_spec : forall x, mulByB x = B * x.
+    Hypothesis A_nz : A <> 0.
+    Hypothesis Z_nz : Z <> 0.
+    Hypothesis c2_sq : c2 * c2 = - Z.
+    Hypothesis pow_c1_euler : forall x, x <> 0 ->
+      let w := fpow K x c1 in (w * w * x) * (w * w * x) = 1.
+    Hypothesis exceptional_is_square : forall n d, d <> 0 ->
+      n * (A * Z * (A * Z) * (A * Z)) = d * ((B * B + A * (A * Z * (A * Z))) * B + B * (A * Z * (A * Z) * (A * Z))) ->
+      fst (SqrtRatio3Mod4 K c1 c2 n d) = true.
+
+    Theorem sswu_3mod4_on_curve : forall u,
+      let '(x, y) := Mappers.sswu K mulByA mulByB Z (SqrtRatio3Mod4 K c1 c2) sgn0 u in
+      y * y = x * x * x + A * x + B.
+    Proof.
+      apply sswu_on_curve; try assumption.
+      apply sqrt_ratio_3mod4_spec; assumption.
+    Qed.
+  End SSWU3Mod4.
+
   (* NonZeroPointMapper.Map (P-256): the fractions are x/1, y/1 of an sswu output *)
   Section NonZeroMap.
     Variables (A B Z : F) (mulByA mulByB : F -> F) (sqrt_ratio : F -> F -> bool * F) (sgn0 : F -> bool).
@@ -294,7 +317,39 @@ Section FieldFacts.
     Qed.
   End Elligator2.
 
-  (* ================================================================================== *)
-  (*  cofactor clearing, relative to the abstract group hypothesis                       *)
-  (* ================================================================================== *)
 End FieldFacts.
+
+(* ====================================================================================== *)
+(*  cofactor clearing, relative to the abstract group hypothesis                           *)
+(* ====================================================================================== *)
+Section Cofactor.
+  Variables (G : Type) (op : G -> G -> G) (e : G).
+  Hypothesis op_assoc : forall a b c, op a (op b c) = op (op a b) c.
+  Hypothesis op_e_l : forall a, op e a = a.
+  Hypothesis op_e_r : forall a, op a e = a.
+
+  (* k*P by repeated addition *)
+  Definition gmul (k : N) (P : G) : G := N.iter k (op P) e.
+
+  Lemma gmul_succ k P : gmul (N.succ k) P = op P (gmul k P).
+  Proof. unfold gmul. apply N.iter_succ. Qed.
+
+  Lemma gmul_add a b P : gmul (a + b) P = op (gmul a P) (gmul b P).
+  Proof.
+    induction a as [|a IH] using N.peano_ind.
+    - rewrite N.add_0_l. unfold gmul at 2. cbn [N.iter]. rewrite op_e_l. reflexivity.
+    - rewrite N.add_succ_l, !gmul_succ, IH. apply op_assoc.
+  Qed.
+
+  Lemma gmul_mul a b P : gmul (a * b) P = gmul a (gmul b P).
+  Proof.
+    induction a as [|a IH] using N.peano_ind.
+    - reflexivity.
+    - rewrite N.mul_succ_l, N.add_comm, gmul_add, gmul_succ, IH. reflexivity.
+  Qed.
+
+  (* the group has order h*n (Lagrange: every element is killed by h*n)  ==>  h*P is killed by n *)
+  Theorem cofactor_cleared_in_subgroup : forall h n : N,
+    (forall P, gmul (h * n) P = e) -> forall P, gmul n (gmul h P) = e.
+  Proof. intros h n Hord P. rewrite <- gmul_mul, N.mul_comm. apply Hord. Qed.
+End Cofactor.
